@@ -184,7 +184,7 @@ def run(replay=None):
 
     # deep / wide destruction on a small stack
     deep_n = 200000 if quick else 1000000
-    deep = "case deep\n" + "\n".join(f"deepchain {deep_n} {k}" for k in range(4)) + "\nend\n"
+    deep = "case deep\n" + "\n".join(f"deepchain {deep_n} {k}" for k in range(8)) + "\nend\n"
 
     def small_stack():
         resource.setrlimit(resource.RLIMIT_STACK, (256 * 1024, 256 * 1024))
@@ -193,7 +193,7 @@ def run(replay=None):
                            timeout=900, preexec_fn=small_stack)
         dl = [l for l in p.stdout.splitlines() if " DEEP " in l]
         stats["deep_chains"] = len(dl)
-        if p.returncode != 0 or len(dl) != 4 or any(not l.endswith("live=0") for l in dl):
+        if p.returncode != 0 or len(dl) != 8 or any(not l.endswith("live=0") for l in dl):
             ck.violation("deep", f"destroying a {deep_n}-node chain on a 256 KB stack failed (rc={p.returncode})",
                          {"stdin": deep, "stdout": p.stdout[-500:], "stderr": p.stderr[-500:]})
     except subprocess.TimeoutExpired:
